@@ -12,3 +12,17 @@
     pub open spec fn not_raw_able(s: Seq<char>) -> bool {
         s == "crate"@ || s == "self"@ || s == "Self"@ || s == "super"@
     }
+//# section: ident-spec
+    // C14 (injection half, sanitisers): what a legal identifier made of ASCII is (Rust reference: XID_Start XID_Continue* | _ XID_Continue+,
+    // restricted to ASCII; `_` alone is not an identifier; a strict / reserved keyword only in raw form, and not all of them may be raw).
+    pub open spec fn ident_char(c: char) -> bool { ascii_alnum(c) || c == '_' }
+    pub open spec fn ident_only(s: Seq<char>) -> bool { forall|i: int| 0 <= i < s.len() ==> ident_char(#[trigger] s[i]) }
+    pub open spec fn identish(s: Seq<char>) -> bool { s.len() > 0 && ident_only(s) && !ascii_digit(s[0]) && s != "_"@ }
+    pub open spec fn legal_ident(s: Seq<char>) -> bool {
+        (identish(s) && !must_escape(s))
+        || exists|k: Seq<char>| s =~= "r#"@ + k && #[trigger] identish(k) && !not_raw_able(k)
+    }
+    // how a name may be respelled: the raw form (where that is legal) or another plain identifier
+    pub open spec fn respelled_ok(f: Seq<char>, r: Seq<char>) -> bool {
+        (r =~= "r#"@ + f && !not_raw_able(f)) || (identish(r) && !must_escape(r))
+    }
